@@ -552,8 +552,17 @@ type SeqCase struct {
 // first, then, first through the registry.
 func (r *Recorder) ReportSeq(t TB, kind string, c any, oracle func() *Violation) {
 	t.Helper()
+	retMu.Lock()
+	retFrom = c
+	retMu.Unlock()
 	if v := oracle(); v != nil {
 		r.Report(t, kind, v)
+		return
+	}
+	// results the library returned in EARLIER evaluations (vk.Retain) must not have changed
+	if desc, from, changed := CheckRetained(); changed {
+		r.Report(t, "sequence", &Violation{Key: "earlier-result-changed-after-later-calls/" + desc, Case: SeqCase{Kind: kind, First: from, Then: c},
+			Msg: "a result returned earlier (" + desc + ") changed after later calls of the API: it shares memory with a pooled or cached buffer"})
 		return
 	}
 	r.mu.Lock()
@@ -588,11 +597,15 @@ func SequenceReplayer(reg Registry) func(raw json.RawMessage) *Violation {
 		if !ok {
 			return Violf("", nil, "unknown kind %q in sequence case", sc.Kind)
 		}
+		ResetRetained()
 		if v := f(sc.First); v != nil {
 			return v
 		}
 		if v := f(sc.Then); v != nil {
 			return v
+		}
+		if desc, _, changed := CheckRetained(); changed {
+			return Violf("earlier-result-changed-after-later-calls/"+desc, nil, "a result returned by the first case (%s) changed after the second case ran", desc)
 		}
 		if v := f(sc.First); v != nil {
 			v.Key = "state-carried-between-calls/" + v.Key
@@ -601,3 +614,73 @@ func SequenceReplayer(reg Registry) func(raw json.RawMessage) *Violation {
 		return nil
 	}
 }
+
+// ---------------------------------------------------------------- retained results
+
+type retained struct {
+	desc string
+	b    []byte  // the library's result itself (not a copy)
+	s    *string // or a string result
+	snap []byte
+	from any // the case that produced it
+}
+
+var (
+	retMu   sync.Mutex
+	retRing []retained
+	retFrom any
+)
+
+const retCap = 96
+
+// Retain remembers a []byte the library returned (the slice itself) together
+// with a snapshot. Results belong to the caller: whatever the library does in
+// later calls must not change them. CheckRetained compares.
+func Retain(desc string, b []byte) {
+	if len(b) == 0 {
+		return
+	}
+	retMu.Lock()
+	retRing = append(retRing, retained{desc: desc, b: b, snap: append([]byte(nil), b...), from: retFrom})
+	if len(retRing) > retCap {
+		retRing = retRing[len(retRing)-retCap:]
+	}
+	retMu.Unlock()
+}
+
+// RetainString does the same for a returned string (which may alias pooled memory through an unsafe conversion).
+func RetainString(desc string, s string) {
+	if len(s) == 0 {
+		return
+	}
+	retMu.Lock()
+	sp := new(string)
+	*sp = s
+	retRing = append(retRing, retained{desc: desc, s: sp, snap: []byte(s), from: retFrom})
+	if len(retRing) > retCap {
+		retRing = retRing[len(retRing)-retCap:]
+	}
+	retMu.Unlock()
+}
+
+// CheckRetained compares every retained result with its snapshot and drops the ring entry that differs.
+func CheckRetained() (desc string, from any, changed bool) {
+	retMu.Lock()
+	defer retMu.Unlock()
+	for i, r := range retRing {
+		var cur []byte
+		if r.s != nil {
+			cur = []byte(*r.s)
+		} else {
+			cur = r.b
+		}
+		if string(cur) != string(r.snap) {
+			retRing = append(retRing[:i:i], retRing[i+1:]...)
+			return r.desc, r.from, true
+		}
+	}
+	return "", nil, false
+}
+
+// ResetRetained forgets everything (replay starts from a clean slate).
+func ResetRetained() { retMu.Lock(); retRing = nil; retMu.Unlock() }
